@@ -53,7 +53,7 @@ def rand_numstring(rng):
             s = "+" + s
         if rng.random() < 0.15:
             s = (s[0] if s[0] in "+-" else "") + "0" * rng.choice([1, 2, 7, 20]) + s.lstrip("+-")
-        s = rng.choice(["", "", "", " ", "  ", "\t", "\n ", " \t"]) + s + rng.choice(["", "", "", " ", "x", "abc", ".5", "e3", "\n"])
+        s = rng.choice(["", "", "", " ", "  ", "\t", "\n ", " \t", "\r", "\r\n", "\v", "\f", "\f\r \v"]) + s + rng.choice(["", "", "", " ", "x", "abc", ".5", "e3", "\n"])
         return s.encode()
     if r < 0.55:
         # decimal texts over the whole double range: every exponent decade incl. the subnormal band (1e-308..5e-324), overflow band, %.17g of random doubles
